@@ -167,6 +167,9 @@ impl Prop for C06 {
     }
     fn witness(&self, _ctx: &Ctx, f: &crate::findings::Finding) -> Result<bool, Fail> {
         // witness: {"kind":"rc1","source": …}: still fails as listed iff output == RC1 prediction != source
+        if f.witness["kind"].as_str() == Some("pp_tokens") {
+            return super::ppcommon::pp_witness(f);
+        }
         if f.witness["kind"].as_str() != Some("rc1") {
             return Ok(false);
         }
